@@ -100,5 +100,12 @@ func c07Cases(level int) []SCase {
 	for d := 1; d <= maxDepth; d++ {
 		rec(d, nil)
 	}
+	if level == 0 {
+		// depth 3 in the quick tier: integer elements only, the four basic limit shapes per level
+		save := elems
+		elems = elems[:1]
+		rec(3, nil)
+		elems = save
+	}
 	return cases
 }
